@@ -241,6 +241,24 @@ def r05_2(ctx, counts) -> RuleResult:
         if f.cls is xc and f.name in ('__init__', '__copy__'):
             continue
         writes = []
+        aliases: dict[str, str] = {}       # local name -> context expression it aliases
+        for x in walk_local(f.node):
+            if isinstance(x, (ast.Assign, ast.AnnAssign)) and isinstance(x.value, ast.Attribute) \
+                    and x.value.attr == 'variables':
+                tg = x.targets[0] if isinstance(x, ast.Assign) else x.target
+                if isinstance(tg, ast.Name):
+                    aliases[tg.id] = dotted(x.value.value)
+        for x in walk_local(f.node):
+            if isinstance(x, (ast.Assign, ast.AugAssign, ast.Delete)):
+                tg_ = x.targets if isinstance(x, (ast.Assign, ast.Delete)) else [x.target]
+                for t in tg_:
+                    if isinstance(t, ast.Subscript) and isinstance(t.value, ast.Name) \
+                            and t.value.id in aliases:
+                        writes.append((x, aliases[t.value.id]))
+            if isinstance(x, ast.Call) and isinstance(x.func, ast.Attribute) \
+                    and x.func.attr in ('update', 'pop', 'setdefault', 'clear', 'popitem') \
+                    and isinstance(x.func.value, ast.Name) and x.func.value.id in aliases:
+                writes.append((x, aliases[x.func.value.id]))
         for x in walk_local(f.node):
             if isinstance(x, (ast.Assign, ast.AugAssign, ast.Delete)):
                 tg = x.targets if isinstance(x, (ast.Assign, ast.Delete)) else [x.target]
@@ -444,9 +462,92 @@ def r05_4(ctx, counts) -> RuleResult:
     return res
 
 
+def r05_5(ctx, counts) -> RuleResult:
+    """The memoising accessors of map/array tokens must only run on values."""
+    model: Model = ctx.model
+    cg, dyn, par = phases(ctx)
+    res = RuleResult(
+        'R05.5', 'CACHE-ON-VALUE-ONLY',
+        'The accessors of token classes that memoise on self (methods that take the dynamic '
+        'context and contain a `self.X = …` store: XPathMap.keys/values/items today, derived '
+        'on every run) are accepted as caches only because they run on map/array VALUES. No '
+        'dynamic-phase function may call one of them on a receiver that denotes a syntax child '
+        'token: `self[k]`, `self._items[k]`, a variable iterating over self, or a local / '
+        'tuple / list built from those (forward may-taint over the CFG). A value obtained '
+        'through evaluate()/select() is a value, not a syntax token.')
+    caching: dict[str, list[FuncInfo]] = {}
+    for c in cg.token_classes:
+        for n, m in c.methods.items():
+            if n in ('nud', 'led', '__init__', '__call__', 'evaluate', 'select',
+                     'to_partial_function') or 'context' not in m.params():
+                continue
+            if any(isinstance(x, ast.Assign) and any(
+                    isinstance(t, ast.Attribute) and dotted(t.value) == 'self' for t in x.targets)
+                   for x in walk_local(m.node)):
+                caching.setdefault(n, []).append(m)
+    counts['caching_accessors'] = sum(len(v) for v in caching.values())
+    res.notes.append(f'caching accessors: {sorted(m.key for v in caching.values() for m in v)}')
+    if not caching:
+        res.ok()
+        return res
+    sites = 0
+    for f in sorted(dyn, key=lambda q: q.key):
+        me = token_self(model, cg, f)
+        if me is None:
+            continue
+        calls = [x for x in walk_local(f.node) if isinstance(x, ast.Call)
+                 and isinstance(x.func, ast.Attribute) and x.func.attr in caching]
+        if not calls:
+            continue
+        cfg = CFG(f.node, calls_may_raise)
+
+        def expr_taint(e: ast.AST, st: State, nd: Node) -> set[str]:
+            if isinstance(e, ast.Subscript) and stmt_text(e.value) in (me, f'{me}._items') \
+                    and not isinstance(e.slice, ast.Slice):
+                return {'syntax'}
+            return set()
+
+        def iter_taint(e: ast.AST, st: State, nd: Node) -> set[str]:
+            t = stmt_text(e)
+            if t in (me, f'{me}._items') or (isinstance(e, ast.Subscript)
+                                             and stmt_text(e.value) in (me, f'{me}._items')
+                                             and isinstance(e.slice, ast.Slice)):
+                return {'syntax'}
+            out: set[str] = set()
+            if isinstance(e, ast.Name):
+                out |= {k[6:] for k in st.get(e.id, ()) if k.startswith('holds:')}
+            if isinstance(e, (ast.Tuple, ast.List)):
+                for x in e.elts:
+                    out |= T.value_taint(x, st, nd)
+            return out
+
+        T = Taint.__new__(Taint)
+        T.cfg, T.expr_taint, T.iter_taint, T.state_in = cfg, expr_taint, iter_taint, {}
+        T._run()
+        for c in calls:
+            sites += 1
+            holder = [nd for nd in cfg.nodes if any(y is c for y in nd.walk())]
+            if not holder:
+                continue
+            st = T.at(holder[0])
+            kinds = T.value_taint(c.func.value, st, holder[0])
+            res.instances.append(f'{f.key}: {stmt_text(c)[:50]} receiver taint={sorted(kinds)}')
+            if 'syntax' in kinds:
+                res.fail(finding('R05.5', f, c, f'{stmt_text(c.func)[:40]} on a syntax token',
+                                 f'`{stmt_text(c)[:60]}` runs a memoising accessor on a child '
+                                 f'token of the expression tree: the constructor token keeps '
+                                 f'the entries of this evaluation and every later evaluation '
+                                 f'(other document, other variables) returns them'))
+            else:
+                res.ok()
+    counts['caching_accessor_calls'] = sites
+    return res
+
+
 def run(ctx) -> dict:
     counts: dict[str, int] = {}
-    results = [r05_1(ctx, counts), r05_2(ctx, counts), r05_3(ctx, counts), r05_4(ctx, counts)]
+    results = [r05_1(ctx, counts), r05_2(ctx, counts), r05_3(ctx, counts), r05_4(ctx, counts),
+               r05_5(ctx, counts)]
     return {
         'results': results, 'counts': counts,
         'explanation':
